@@ -28,6 +28,9 @@ class FuncResult(object):
         self.lineno = None
         self.time = 0.0
         self.feasible_exits = 0
+        self.raw = None
+        self.entry_env = None
+        self.keepalive = None
 
 
 def check_signature(c, fn):
@@ -82,6 +85,8 @@ def verify_function(key, tier='quick', keep_terms=False, discharge=True):
                 env[fn.node.name] = Val(T.FN, FnV('closure', fn.node.name, node=fn.node, env=None, cls=key))
             # default arguments may also take their declared default: covered since params are symbolic
             st.locals = dict(env)
+            if any(r.strip() == 'in_timeout_scope()' for r in c.requires):
+                st.ghost['$timeout_depth'] = 1      # the caller provides the enclosing Timeout scope
             for rq in c.free_requires:
                 st.assume(E.spec_bool(st, rq, env))
             for rq in c.requires:
